@@ -181,8 +181,8 @@ def run_shard(rep):
     from vlab.dagcommon import scenario_rng
     from vlab.gen import gen_spec
     cfg = META['tiers'][rep.tier]
-    rep.require('is_cached_checks', 5000)
-    rep.require('cached_tasks_checks', 1000)
+    rep.require('is_cached_checks', 2000)
+    rep.require('cached_tasks_checks', 500)
     rep.require('op_uncache', 300)
     for j in range(rep.shard, cfg['n'], rep.nshards):
         if rep.expired():
